@@ -19,8 +19,8 @@ CHECKS = {
  "C15": dict(cat="exploration", tech="full-product enumeration of metadata blob alphabet^3 x output kinds; byte-exact read-back through three parsers",
    text="Full product of a 10-blob alphabet (absent, nil, empty, 1-3 bytes, chunk-look-alike, 4095/4096/65537 bytes) for each of ICC/EXIF/XMP x 6 output kinds (lossy, lossless, +alpha, 1- and 2-frame AnimEncoder); blobs read back byte-exact by riffwalk, mux.GetChunk and animation.DecodeBytes; flags = presence; bitstream, ALPH payload and pixels identical to the no-metadata output.",
    note="100 MB cap edge is not enumerated in quick; worker count pinned, pools fresh.", ref="3/C15"),
- "C17": dict(cat="fault_enumeration", tech="complete enumeration of all proper prefixes of every corpus file against the three public entry points",
-   text="Every proper prefix (all cut points) of ~50 valid still files covering lossy 1-8 partitions, lossless per transform class, lossy+alpha raw/VP8L x filters, extended layouts with metadata/unknown chunks before and after the image, odd payloads: Decode must fail or return the identical picture; DecodeConfig/GetFeatures must fail or return identical values.",
+ "C17": dict(cat="fault_enumeration", tech="complete enumeration of all prefixes of every corpus file x 5 kinds of io.Reader against the three public entry points (and image.Decode/DecodeConfig)",
+   text="Every prefix (all cut points, and the complete file), delivered through five kinds of io.Reader (known length, unknown length, one byte per Read, data together with io.EOF, image.Decode via the registered format), of ~300 valid still files covering lossy 1-8 partitions, lossless per transform class, lossy+alpha raw/VP8L x filters, extended layouts with metadata/unknown chunks before and after the image, odd payloads: Decode must fail or return the identical picture; DecodeConfig/GetFeatures must fail or return identical values.",
    note="Corpus files are small (<= 6 KB) so that the enumeration is complete; files outside the corpus classes are not covered.", ref="3/C17"),
  "C19": dict(cat="exploration", tech="full-product enumeration of picture x storage placement x codec options; byte equality against the canonical placement",
    text="Full product of picture (size x content x alpha) x 10 storage placements (sub-image, odd sub-image, negative origin, stride padding, poisoned parents, generic wrappers, over-long Pix) x codec x Exact x sharp YUV x dithering x Method; all placements must give bytes identical to the plain NRGBA-at-origin encoding and leave the caller's buffer untouched.",
@@ -32,8 +32,8 @@ CHECKS = {
 
 _MORE = {
  "C08": dict(cat="model_checking", tech="explicit-state breadth-first search over the real AnimEncoder (histories replayed on fresh objects, reflection state hash), reference player as oracle",
-   text="Every AddFrame history up to depth 3 (thorough 4; a 7-picture core alphabet one level deeper) over a 22-operation alphabet of (picture, duration) on an 8x8 canvas x 8 Kmin/Kmax/loop configurations. After every history the encoder is closed and the bytes are played back by this package's reader+player and by an independent stack (own RIFF parser, vendored decoders, reference compositor); both must show the run-length-merged inputs with the same display times, total duration, loop count and canvas size.",
-   note="Bounded depth and picture alphabet; canvas fixed at 8x8; model = plain list of (canvas, duration). States are histories merged by private-state hash; every transition is executed on the implementation.", ref="3/C08"),
+   text="Every AddFrame history up to depth 3 (thorough 4; a 7-picture core alphabet one level deeper) over a 22-operation alphabet of (picture, duration) on an 8x8 canvas x 8 Kmin/Kmax/loop configurations, plus a third search on a 24x16 canvas over 10 many-colour pictures (more colours than a palette, incompressible content, changed regions followed by unchanged pixels, translucent regions on opaque and on transparent ground). After every history the encoder is closed and the bytes are played back by this package's reader+player and by an independent stack (own RIFF parser, vendored decoders, reference compositor); both must show the run-length-merged inputs with the same display times, total duration, loop count and canvas size.",
+   note="Bounded depth and picture alphabet; canvases 8x8 and 24x16; model = plain list of (canvas, duration). States are histories merged by private-state hash; every transition is executed on the implementation.", ref="3/C08"),
  "C09": dict(cat="model_checking", tech="explicit-state breadth-first search over the real AnimDecoder with state merging by reflection hash; exhaustive operand sweep of the blend function",
    text="Transition = NextFrame on one more frame from a 252-frame alphabet (rectangle inside/partly outside/outside/larger than the 4x4 canvas x blend x dispose x HasAlpha x 7 fills); depth 3 quick, up to 6 thorough, states merged by a hash of the decoder's complete private state plus the model. Each step is checked against a compositor written from the specification (no key-frame shortcut); every history also checks Reset-replay and that earlier snapshots are untouched. alphaBlendNRGBA is swept over all alpha pairs x channel grid (thorough: all 2^32 operand tuples).",
    note="Blend results accept libwebp's documented integer formula or the specification's real formula within rounding; merging skips the frame list pointer and canonicalises pos (argument in c09.go).", ref="3/C09"),
@@ -48,10 +48,10 @@ _MORE = {
    note="Colour is not compared in lossy modes; bounded depth/alphabet as C08.", ref="3/C18"),
 
  "C10": dict(cat="model_checking", tech="stateless model checking of the implementation under a controlled scheduler (delay-/preemption-bounded DFS over all schedules), plus a separate free-running race-detector pass",
-   text="The instrumenter replaces sync, sync/atomic, go statements, channels and sync.Pool in the current tree by shims that give a cooperative scheduler every synchronisation operation (and the entry of the pipeline's context read/publish functions) as a scheduling point. For 12 scenarios on the real code (row-pipelined lossy encoder for 1/2/3-macroblock-wide pictures, alpha, lossless encode/decode fork-join sections, parallel frame decoding over channels, concurrent public calls with and without pool sharing, two threads on one image) every schedule with at most 2 non-default scheduling decisions (thorough: preemption bound 2 with free switches at blocking points, or delay bound 3) is executed; bytes/pixels must equal the non-preempted schedule (concurrent calls: some sequential order), with no deadlock, lost wake-up, livelock or panic.",
+   text="The instrumenter replaces sync, sync/atomic, go statements, channels and sync.Pool in the current tree by shims that give a cooperative scheduler every synchronisation operation (and the entry of the pipeline's context read/publish functions) as a scheduling point. For 14 scenarios on the real code (row-pipelined lossy encoder for 1/2/3-macroblock-wide pictures, alpha, lossless encode/decode fork-join sections, parallel frame decoding over channels, concurrent public calls with and without pool sharing incl. calls competing for the same pooled encoder/decoder types, two threads on one image) every schedule with at most 2 non-default scheduling decisions (thorough: preemption bound 2 with free switches at blocking points, or delay bound 3) is executed; bytes/pixels must equal the non-preempted schedule (concurrent calls: each result equals what the same call returns when run alone), with no deadlock, lost wake-up, livelock or panic.",
    note="Sequential consistency at scheduling points; plain data races are only sampled by the free-running -race pass (GOMAXPROCS 4 and 16), which is labelled sampling in the evidence. Worker vector fixed per scenario. A completed sync.Once is not a scheduling point.", ref="3/C10"),
- "C11": dict(cat="model_checking", tech="exhaustive history enumeration (all ordered pairs/triples of API calls) x explorable sync.Pool (every assignment of pooled objects to Get calls with <=2 reuse events + all-reuse), fresh-process results as oracle",
-   text="Every ordered pair (thorough: triples over a 12-call core) of a 24-call alphabet chosen to collide (equal/greater/smaller macroblock counts, options that must be reset, methods, alpha, dithering, source types, both codecs, decodes, animation); inside each history every Pool.Get is a choice point (which pooled object, or none). Each result must equal the same call's result as the first call of a fresh process (computed in child processes) and earlier results must stay unchanged.",
+ "C11": dict(cat="model_checking", tech="exhaustive history enumeration (all ordered pairs/triples of API calls) x explorable sync.Pool (every assignment of pooled objects to Get calls with <=1 (thorough 2) reuse events + all-reuse), fresh-process results as oracle",
+   text="Every ordered pair (thorough: triples over a 16-call core) of a 40-call alphabet chosen to collide (equal/greater/smaller macroblock counts, options that must be reset, methods, alpha, dithering, source types, both codecs, decodes of encoder-made files and of generator-made streams whose headers carry fields no encoder writes, decodes that fail part-way, animation); inside each history every Pool.Get is a choice point (which pooled object, or none). Each result must equal the same call's result as the first call of a fresh process (computed in child processes) and earlier results must stay unchanged.",
    note="vsync.Pool replaces sync.Pool (the runtime's per-P caches and GC clearing are owned by the harness); worker count pinned to 1; histories deeper than 2 (3) calls and >2 reuse events only through the all-reuse schedule.", ref="3/C11"),
 
  "C12": dict(cat="exploration", tech="exhaustive enumeration of per-call-site worker-count vectors (single and pairwise deviations, all uniform values 1..16) on the real code under a deterministic schedule",
@@ -62,9 +62,9 @@ _MORE = {
    text="10 pictures x lossy EncoderOptions with at most 2 (thorough 3) fields away from the defaults (16 fields) x worker count {1, 3 under the deterministic default schedule}, plus every ordered pair of Methods on a recycled encoder: the reconstruction planes the encoder holds when EncodeFrame returns (captured by an overlay wrapper generated at check time) must equal bit-exactly what the vendored decoder reconstructs before in-loop deblocking, and webp.Decode's planes when the filter level is 0; decoded size equals source size.",
    note="Reads VP8Encoder.yPlane/uPlane/vPlane through a generated accessor (skipped and reported, never an alarm, if those fields disappear); 3-way option interactions only in thorough.", ref="3/C06"),
 
- "C13": dict(cat="exploration", tech="multi-build differential: the same pipeline case list executed by three builds of the current tree (AVX2, SSE2-only, portable Go under js/wasm) plus an exhaustive-over-list GOOS/GOARCH compilation matrix",
-   text="The harness is built three times from the current working tree - native amd64 (AVX2 kernels), amd64 with AVX2 detection forced off by an overlay (SSE2 kernels), and GOOS=js GOARCH=wasm executed under node (the files selected for non-assembly targets, i.e. the portable Go kernels) - and each build prints a digest for 260 pipeline cases (15 pictures x 14 option sets incl. every Method, sharp YUV, dithering, TargetSize; decode of the whole still corpus; playback of the animation corpus); the digests must be equal case by case. `go build` of every library package must succeed for 13 GOOS/GOARCH pairs (thorough: every pair the toolchain lists that builds without cgo).",
-   note="arm64 assembly and 32-bit targets cannot be executed in this sandbox (compile-only); kernel inputs are those the pipeline cases reach; one open known finding (linux/s390x compiler error).", ref="3/C13"),
+ "C13": dict(cat="exploration", tech="multi-build differential: the same pipeline and kernel-level case list executed by three builds of the current tree (AVX2, SSE2-only, portable Go under js/wasm) plus an exhaustive-over-list GOOS/GOARCH compilation matrix",
+   text="The harness is built three times from the current working tree - native amd64 (AVX2 kernels), amd64 with AVX2 detection forced off by an overlay (SSE2 kernels), and GOOS=js GOARCH=wasm executed under node (the files selected for non-assembly targets, i.e. the portable Go kernels) - and each build prints a digest for 260 pipeline cases (15 pictures x 14 option sets incl. every Method, sharp YUV, dithering, TargetSize; decode of the whole still corpus; playback of the animation corpus; decode of ~290 generator-made VP8L/VP8 streams) and for 36 kernel-level families (every kernel with an assembly implementation called through the dispatch points over enumerated boundary inputs: coefficient programs, all pairs of 8 boundary patterns, all 4-tuples of 12 sample values x 6 thresholds, lengths 0..40, widths 1..40 and around 2048/4096, every y x every u x 44 v); the digests must be equal case by case. `go build` of every library package must succeed for 13 GOOS/GOARCH pairs (thorough: every pair the toolchain lists that builds without cgo).",
+   note="arm64 assembly and 32-bit targets cannot be executed in this sandbox (compile-only); kernel-level inputs stay below the magnitude range of the recorded IDCT finding; two open known findings (linux/s390x compiler error, 16-bit IDCT wrap on extreme coefficients).", ref="3/C13"),
 
  "C03": dict(cat="exploration", tech="exhaustive enumeration of syntax trees of a VP8L stream generator (full transform-order product, deviation-bounded feature menus) decoded by the real decoder and by two independent decoders",
    text="A syntax-directed VP8L writer (own bit writer, canonical prefix codes, code-length coding, transforms, entropy image, colour caches, LZ77 programs) is driven by the explorer: the full product of all 65 ordered transform subsets x 13 dimensions x 2 tile sizes with at most one further deviation, and 10 orders x 5 dimensions with at most 2 (thorough 3) deviations from menus covering every predictor mode, multipliers, palette sizes and packings, cache sizes for every image level, meta prefix images, prefix-code shapes and 7 backward-reference programs incl. all 120 plane codes. Every stream is valid by construction; webp.Decode and lossless.DecodeVP8L must return exactly the pixels of the vendored x/image decoder, with libwebp arbitrating; a hang guard turns a non-terminating decode into a violation.",
